@@ -1,6 +1,7 @@
 pub mod enc;
 pub mod op;
 pub mod hmap;
+pub mod lang;
 
 /// One operation per line: `<op> <args…>`; the result is one line of canonical text.
 pub fn dispatch(line: &str) -> String {
@@ -13,6 +14,10 @@ pub fn dispatch(line: &str) -> String {
         "un" => op::run_un(rest),
         "eqhash" => op::run_eqhash(rest),
         "hmap" => hmap::run(rest),
+        "scan" => lang::scan(rest),
+        "parse" => lang::parse(rest),
+        "compile" => lang::compile(rest),
+        "eval" => lang::eval(rest),
         _ => format!("bad-op {}", op),
     }
 }
